@@ -92,12 +92,18 @@ Definition refused (am : amode) (pm : list string) (f : fspec) : option errk :=
   end.
 
 (* well-formed collection w.r.t. a set K of construct keys: keys are
-   distinct, drawn from K, no key begins with key%, and no identity of a
+   distinct (key_inj), drawn from K, no key begins with key%, and no identity of a
    member coincides with a key of K (bare or key%-prefixed) *)
 Definition no_clash (K : list string) (c : construct) : Prop :=
   forall i, In i (identities c) -> key_hit K (VStr i) = None.
 
+Definition key_inj (a : list construct) : Prop :=
+  forall c c', In c a -> In c' a -> c_key c = c_key c' -> c = c'.
+
 Definition wf (K : list string) (a : list construct) : Prop :=
-  NoDup (keys_of a) /\ incl (keys_of a) K /\
+  key_inj a /\ incl (keys_of a) K /\
   (forall k, In k K -> prefixb "key%" k = false) /\
   (forall c, In c a -> no_clash K c).
+
+(* a string that _short_iteration lets through *)
+Definition plain (s : string) : bool := short_iteration (VStr s).
